@@ -464,6 +464,27 @@ class CallMixin:
         return cs[0]
 
     def construct(self, oc, args, kwargs, st):
+        dc = getattr(self.E, "dataclasses", {}).get(oc.name)
+        if dc is not None:
+            vals = {}
+            for i, f in enumerate(dc):
+                if i < len(args):
+                    vals[f] = args[i]
+                elif f in kwargs:
+                    vals[f] = kwargs[f]
+                else:
+                    raise Unsupported(f"dataclass {oc.name}: missing field {f}")
+            decl = self.tenv.classes[oc.name]
+            fields = {}
+            for f, v in vals.items():
+                fpt = decl[f]
+                if fpt.kind == "obj":
+                    if not isinstance(v, ObjRef):
+                        raise Unsupported(f"dataclass {oc.name}.{f}: expected an object")
+                    fields[f] = v
+                else:
+                    fields[f] = self.ops.sv(v, fpt)
+            return self.alloc(oc.name, st, oc.name.lower(), fields=fields)
         c = self.find_method_contract(oc.name, "__init__", args)
         if c is None:
             raise Unsupported(f"no contract for {oc.name}.__init__")
